@@ -88,6 +88,9 @@ pub struct Config {
   pub integration_test: bool,
   /// attach an event receiver
   pub events: bool,
+  /// simulation knob: activation height of inscriptions (None = the chain's own)
+  #[serde(default)]
+  pub first_inscription_height: Option<u32>,
 }
 
 impl Default for Config {
@@ -106,6 +109,7 @@ impl Default for Config {
       bitcoin_rpc_limit: 12,
       integration_test: false,
       events: false,
+      first_inscription_height: None,
     }
   }
 }
